@@ -420,4 +420,28 @@ CHECKS = {
              "repairs interact; completeness; optimality. Assumes every "
              "non-root node has one parent and is registered in the "
              "lookup."),
+    "C01": dict(
+        technique="reaching-definition (def-use) identity over both "
+                  "place-and-route wrappers, sibling cross-checks between "
+                  "router/loader core ranges and between the two "
+                  "default-route predicates, plus the delegated dominance "
+                  "rules of C03, C04 and C10",
+        text="Wiring, for every call: place()'s result is the placement "
+             "given to allocate, route and build_application_map; "
+             "allocate()'s result is the allocation given to route and the "
+             "application map; route()'s trees and the caller's net_keys "
+             "feed the table generator, whose tables are minimised against "
+             "target lengths built from the same system_info, and the "
+             "minimised tables are returned; one machine and one augmented "
+             "constraint list reach all three stages (R1, R2). Router and "
+             "loader iterate the same [start, stop) of the same allocation "
+             "slice (R3). Removing an entry as default-routable and "
+             "accepting a missing entry as default-routed use the same five "
+             "conditions (R4). The delivery-critical component rules "
+             "C10-R1, C04-R2/R3, C03-R3/R4/R5 are re-checked (R6).",
+        note="Not decided: that the composed pipeline delivers every packet "
+             "exactly once on every machine and fault map (quantifies over "
+             "runtime graph contents); cross-chip interactions of minimised "
+             "tables with upstream default routing. This check decides "
+             "necessary conditions only."),
 }
